@@ -41,7 +41,7 @@ fn cyc(n: usize, tag0: u32) -> Vec<Msg> {
 }
 
 fn scenario(name: &str) -> Scenario {
-	let mk = |a: Vec<Msg>, b: Vec<Msg>, chunk: usize| Scenario { name: name.to_string(), send: [a, b], chunk };
+	let mk = |a: Vec<Msg>, b: Vec<Msg>, chunk: usize| Scenario { name: name.to_string(), send: [a, b], chunk, release_after: [0, 0] };
 	let parts: Vec<&str> = name.split(':').collect();
 	match parts[0] {
 		"hs" => mk(vec![], vec![], 0),
@@ -75,6 +75,9 @@ fn scenario(name: &str) -> Scenario {
 			}
 		},
 		"pause" => mk(cyc(14, 600), cyc(14, 700), 0),
+		// B answers: it queues its messages only once it has handled A's first one, so they reach A
+		// while A is still stuck behind a full socket (and has paused its reads)
+		"pause2" => Scenario { release_after: [0, 1], ..mk(cyc(16, 800), cyc(14, 900), 0) },
 		"rot" => {
 			let n: usize = parts.get(2).and_then(|s| s.parse().ok()).unwrap_or(1003);
 			let chunk: usize = parts.get(3).and_then(|s| s.parse().ok()).unwrap_or(0);
@@ -935,7 +938,7 @@ fn main() {
 
 	// 2. scenarios and their base runs
 	let scn_names: Vec<String> = {
-		let mut v: Vec<String> = ["hs", "seq", "seqchan", "mixed", "big:a", "big:b", "pause", "rot:a:1003", "rot:b:1003", "rot:ab:1003", "rot:a:1003:4096"].iter().map(|s| s.to_string()).collect();
+		let mut v: Vec<String> = ["hs", "seq", "seqchan", "mixed", "big:a", "big:b", "pause", "pause2", "rot:a:1003", "rot:b:1003", "rot:ab:1003", "rot:a:1003:4096"].iter().map(|s| s.to_string()).collect();
 		if thorough {
 			v.push("rot:ab:2505".into());
 		}
@@ -1047,7 +1050,8 @@ fn main() {
 		// F4: back-pressure: both sides queue 14 messages; a blocked writer with >= 12 queued
 		// messages pauses its own reads. Every single deviation; short write x delayed writable;
 		// short write in A->B's first records x every cut/short in B->A.
-		let i = idx("pause");
+		for pname in ["pause", "pause2"] {
+		let i = idx(pname);
 		let b = &ctx.bases[i];
 		let mut pool = cut_pool(b, [0, 0]);
 		pool.extend(short_pool(b, [0, 0]));
@@ -1074,6 +1078,7 @@ fn main() {
 			t.push(WTask { family: "pause", scn: i, mode: Mode::Clean, prefix: vec![Dev::Short { dir: A, off }], pool: Some((other.clone(), 0, other.len())) });
 		}
 		families.push(("pause", t));
+		}
 	}
 	for name in ["big:a", "big:b"] {
 		// F5: a maximum-size message: single cuts / short writes over the big record
@@ -1367,7 +1372,7 @@ fn main() {
 		need(a.zero_accept_runs > 100, "fewer than 100 runs in which send_data accepted 0 bytes");
 		need(a.delay_runs > 100, "no runs with a delayed write_buffer_space_avail");
 		need(a.skip_runs > 10, "no runs with a skipped process_events");
-		need(a.deferred_read_runs > 50, "back-pressure never actually deferred a read");
+		need(a.deferred_read_runs > 500, "back-pressure deferred a read in fewer than 500 runs");
 		need(a.pause_signal_runs > 50, "LDK never asked the driver to pause reading");
 		need(a.rotation_runs > 100, "fewer than 100 runs crossed a key rotation");
 		need(a.max_records >= 1000, "no run crossed the second key rotation (record 1000)");
